@@ -25,8 +25,14 @@ CONSTANTS Pubs, NPub, RankOf,        \* publisher threads, events per publisher,
           Subs, InitSubscribed,      \* subscribers (all added and active initially), those subscribed initially
           Drainers, DrainOf, NIter,  \* drainer threads, [Drainers -> Subs], Iterator calls per drainer
           Ctls, KOps,                \* controller threads, operations per controller
-          Defects                    \* subset of {"LengthWrap"}: Length() returns uint64(len) even when len < 0
-                                     \* (the code as found; Iterator then panics in make(chan, n))
+          Defects                    \* subset of {"LengthWrap", "SubscribeSplit"}
+                                     \* "LengthWrap": Length() returns uint64(len) even when len < 0 (the code as found;
+                                     \*   Iterator then panics in make(chan, n))
+                                     \* "SubscribeSplit" (a seeded mutant, kept as documentation): Subscribe looks the
+                                     \*   topic's subscriber map up under the read lock (KSubTopics) and inserts under the
+                                     \*   write lock in a second step (KSubInsert), re-checking only the "topic missing"
+                                     \*   case; if the last other subscriber unsubscribes in between, Unsubscribe deletes
+                                     \*   the empty map from b.topics and the insert goes into the orphaned map
 
 Threads == Pubs \cup Drainers \cup Ctls
 Id(p, k) == RankOf[p] * 10 + k
@@ -45,12 +51,14 @@ VARIABLES topics,   \* SUBSET Subs: b.topics[topic]
           must, mustnot, inflight, pubdone,   \* ghost, per event
           stableSub, stableUnsub, dead,        \* ghost, per subscriber
           delivered,  \* ghost: [Subs -> Seq(Events)] Iterator results in return order
+          tgen,       \* identity of the map object b.topics[topic] (counts its deletions; only with SubscribeSplit)
+          kgen,       \* [Ctls -> Int] map object a Subscribe looked up (0 = topic was missing, -1 = none)
           panicked,   \* Iterator would panic (make(chan, n) with n < 0)
           lastRes,    \* result of the last returned Iterator (output only)
           last
 
 vars == <<topics, selfT, active, q, qlen, pc, pk, snap, n, got, iters, kop, ks, kops, kflag,
-          must, mustnot, inflight, pubdone, stableSub, stableUnsub, dead, delivered, panicked, lastRes, last>>
+          must, mustnot, inflight, pubdone, stableSub, stableUnsub, dead, delivered, tgen, kgen, panicked, lastRes, last>>
 
 Init ==
   /\ topics = InitSubscribed
@@ -66,6 +74,7 @@ Init ==
   /\ stableUnsub = [s \in Subs |-> s \notin InitSubscribed]
   /\ dead = [s \in Subs |-> FALSE]
   /\ delivered = [s \in Subs |-> <<>>]
+  /\ tgen = 1 /\ kgen = [k \in Ctls |-> -1]
   /\ panicked = FALSE /\ lastRes = <<>> /\ last = "init"
 
 Goto(t, l) == pc' = [pc EXCEPT ![t] = l]
@@ -80,7 +89,7 @@ PCall(p) ==
   /\ mustnot' = [mustnot EXCEPT ![Ev(p)] = {s \in Subs : stableUnsub[s] \/ dead[s]}]
   /\ inflight' = inflight \cup {Ev(p)}
   /\ Goto(p, "snap") /\ last' = p \o ":PCall"
-  /\ UNCHANGED <<topics, selfT, active, q, qlen, pk, snap, n, got, iters, kop, ks, kops, kflag, pubdone,
+  /\ UNCHANGED <<tgen, kgen, topics, selfT, active, q, qlen, pk, snap, n, got, iters, kop, ks, kops, kflag, pubdone,
                  stableSub, stableUnsub, dead, delivered, panicked, lastRes>>
 
 \* Publish returns
@@ -96,7 +105,7 @@ PSnap(p) ==
      THEN PRet(p) /\ UNCHANGED snap
      ELSE /\ \E f \in Perms(topics) : snap' = [snap EXCEPT ![p] = f]     \* Go map iteration order
           /\ PStay(p, "act")
-  /\ UNCHANGED <<topics, selfT, active, q, qlen, n, got, iters, kop, ks, kops, kflag, must, mustnot,
+  /\ UNCHANGED <<tgen, kgen, topics, selfT, active, q, qlen, n, got, iters, kop, ks, kops, kflag, must, mustnot,
                  stableSub, stableUnsub, dead, delivered, panicked, lastRes>>
 
 \* move on to the next subscriber of the snapshot, or return
@@ -106,27 +115,27 @@ PNextSub(p) == /\ snap' = [snap EXCEPT ![p] = Tail(@)]
 PActive(p) ==
   /\ pc[p] = "act" /\ last' = p \o ":PActive"
   /\ IF active[Head(snap[p])] THEN PStay(p, "sig") /\ UNCHANGED snap ELSE PNextSub(p)
-  /\ UNCHANGED <<topics, selfT, active, q, qlen, n, got, iters, kop, ks, kops, kflag, must, mustnot,
+  /\ UNCHANGED <<tgen, kgen, topics, selfT, active, q, qlen, n, got, iters, kop, ks, kops, kflag, must, mustnot,
                  stableSub, stableUnsub, dead, delivered, panicked, lastRes>>
 
 PSig(p) ==
   /\ pc[p] = "sig" /\ last' = p \o ":PSig"
   /\ IF active[Head(snap[p])] THEN PStay(p, "link") /\ UNCHANGED snap ELSE PNextSub(p)
-  /\ UNCHANGED <<topics, selfT, active, q, qlen, n, got, iters, kop, ks, kops, kflag, must, mustnot,
+  /\ UNCHANGED <<tgen, kgen, topics, selfT, active, q, qlen, n, got, iters, kop, ks, kops, kflag, must, mustnot,
                  stableSub, stableUnsub, dead, delivered, panicked, lastRes>>
 
 PLink(p) ==
   /\ pc[p] = "link" /\ last' = p \o ":PLink"
   /\ q' = [q EXCEPT ![Head(snap[p])] = Append(@, Ev(p))]
   /\ PStay(p, "cnt")
-  /\ UNCHANGED <<topics, selfT, active, qlen, snap, n, got, iters, kop, ks, kops, kflag, must, mustnot,
+  /\ UNCHANGED <<tgen, kgen, topics, selfT, active, qlen, snap, n, got, iters, kop, ks, kops, kflag, must, mustnot,
                  stableSub, stableUnsub, dead, delivered, panicked, lastRes>>
 
 PCnt(p) ==
   /\ pc[p] = "cnt" /\ last' = p \o ":PCnt"
   /\ qlen' = [qlen EXCEPT ![Head(snap[p])] = @ + 1]
   /\ PNextSub(p)
-  /\ UNCHANGED <<topics, selfT, active, q, n, got, iters, kop, ks, kops, kflag, must, mustnot,
+  /\ UNCHANGED <<tgen, kgen, topics, selfT, active, q, n, got, iters, kop, ks, kops, kflag, must, mustnot,
                  stableSub, stableUnsub, dead, delivered, panicked, lastRes>>
 
 \* ------------------------------------------------------------------ drainer (Iterator)
@@ -139,7 +148,7 @@ IRet(d, res) == /\ delivered' = [delivered EXCEPT ![DrainOf[d]] = @ \o res]
 ICall(d) ==
   /\ pc[d] = "idle" /\ iters[d] < NIter
   /\ Goto(d, "ilen") /\ last' = d \o ":ICall"
-  /\ UNCHANGED <<topics, selfT, active, q, qlen, pk, snap, n, got, iters, kop, ks, kops, kflag, must, mustnot, inflight,
+  /\ UNCHANGED <<tgen, kgen, topics, selfT, active, q, qlen, pk, snap, n, got, iters, kop, ks, kops, kflag, must, mustnot, inflight,
                  pubdone, stableSub, stableUnsub, dead, delivered, panicked, lastRes>>
 
 ILen(d) ==
@@ -149,7 +158,7 @@ ILen(d) ==
   /\ IF qlen[DrainOf[d]] <= 0
      THEN IRet(d, <<>>)
      ELSE Goto(d, "ideq") /\ UNCHANGED <<delivered, lastRes, iters, got>>
-  /\ UNCHANGED <<topics, selfT, active, q, qlen, pk, snap, kop, ks, kops, kflag, must, mustnot, inflight,
+  /\ UNCHANGED <<tgen, kgen, topics, selfT, active, q, qlen, pk, snap, kop, ks, kops, kflag, must, mustnot, inflight,
                  pubdone, stableSub, stableUnsub, dead>>
 
 IDeq(d) ==
@@ -160,7 +169,7 @@ IDeq(d) ==
      ELSE /\ got' = [got EXCEPT ![d] = Append(@, Head(q[s]))]
           /\ q' = [q EXCEPT ![s] = Tail(@)]
           /\ Goto(d, "idec") /\ UNCHANGED <<delivered, lastRes, iters>>
-  /\ UNCHANGED <<topics, selfT, active, qlen, pk, snap, n, kop, ks, kops, kflag, must, mustnot, inflight,
+  /\ UNCHANGED <<tgen, kgen, topics, selfT, active, qlen, pk, snap, n, kop, ks, kops, kflag, must, mustnot, inflight,
                  pubdone, stableSub, stableUnsub, dead, panicked>>
 
 IDec(d) ==
@@ -168,7 +177,7 @@ IDec(d) ==
   /\ qlen' = [qlen EXCEPT ![DrainOf[d]] = @ - 1]
   /\ n' = [n EXCEPT ![d] = @ - 1]
   /\ IF n[d] = 1 THEN IRet(d, got[d]) ELSE Goto(d, "ideq") /\ UNCHANGED <<delivered, lastRes, iters, got>>
-  /\ UNCHANGED <<topics, selfT, active, q, pk, snap, kop, ks, kops, kflag, must, mustnot, inflight,
+  /\ UNCHANGED <<tgen, kgen, topics, selfT, active, q, pk, snap, kop, ks, kops, kflag, must, mustnot, inflight,
                  pubdone, stableSub, stableUnsub, dead, panicked>>
 
 \* ------------------------------------------------------------------ controller
@@ -186,7 +195,7 @@ KRet(k) ==
   /\ Goto(k, IF kops[k] + 1 = KOps THEN "done" ELSE "idle")
   /\ LET s == ks[k] IN
      IF kop[k] = "sub"
-     THEN /\ stableSub' = [stableSub EXCEPT ![s] = (~kflag[k]) /\ active[s] /\ (pc[k] = "sub.topics")]
+     THEN /\ stableSub' = [stableSub EXCEPT ![s] = (~kflag[k]) /\ active[s] /\ (pc[k] \in {"sub.topics", "sub.insert"})]
           /\ UNCHANGED <<stableUnsub, dead>>
      ELSE /\ stableUnsub' = [stableUnsub EXCEPT ![s] = ~kflag[k]]
           /\ dead' = [dead EXCEPT ![s] = @ \/ kop[k] \in {"rm", "shutdown"}]
@@ -199,7 +208,7 @@ KSubscribe(k, s) ==
   /\ mustnot' = [e \in Events |-> IF e \in inflight /\ ~dead[s] THEN mustnot[e] \ {s} ELSE mustnot[e]]
   /\ kflag' = [k2 \in Ctls |-> IF k2 = k THEN \E k3 \in Ctls \ {k} : InU(k3, s)
                                ELSE IF InU(k2, s) THEN TRUE ELSE kflag[k2]]
-  /\ UNCHANGED <<topics, selfT, active, q, qlen, pk, snap, n, got, iters, kops, must, inflight, pubdone,
+  /\ UNCHANGED <<tgen, kgen, topics, selfT, active, q, qlen, pk, snap, n, got, iters, kops, must, inflight, pubdone,
                  stableSub, dead, delivered, panicked, lastRes>>
 
 \* Unsubscribe / RemoveSubscriber / Shutdown are called
@@ -209,7 +218,7 @@ KUCall(k, op, s, l) ==
   /\ must' = [e \in Events |-> IF e \in inflight THEN must[e] \ {s} ELSE must[e]]
   /\ kflag' = [k2 \in Ctls |-> IF k2 = k THEN \E k3 \in Ctls \ {k} : InSub(k3, s)
                                ELSE IF InSub(k2, s) THEN TRUE ELSE kflag[k2]]
-  /\ UNCHANGED <<topics, selfT, active, q, qlen, pk, snap, n, got, iters, kops, mustnot, inflight, pubdone,
+  /\ UNCHANGED <<tgen, kgen, topics, selfT, active, q, qlen, pk, snap, n, got, iters, kops, mustnot, inflight, pubdone,
                  stableUnsub, dead, delivered, panicked, lastRes>>
 
 KUnsubscribe(k, s) == KUCall(k, "unsub", s, "unsub.self") /\ last' = k \o ":KUnsubscribe"
@@ -223,53 +232,69 @@ KStay == UNCHANGED <<kops, stableSub, stableUnsub, dead>>
 KSubActive(k) ==
   /\ pc[k] = "sub.active" /\ last' = k \o ":KSubActive"
   /\ IF active[ks[k]] THEN Goto(k, "sub.self") /\ KStay ELSE KRet(k)
-  /\ KStep(k) /\ UNCHANGED <<topics, selfT, active>>
+  /\ KStep(k) /\ UNCHANGED <<tgen, kgen, topics, selfT, active>>
 
 KSubSelf(k) ==
   /\ pc[k] = "sub.self" /\ last' = k \o ":KSubSelf"
   /\ selfT' = [selfT EXCEPT ![ks[k]] = TRUE]
   /\ Goto(k, "sub.topics") /\ KStay
-  /\ KStep(k) /\ UNCHANGED <<topics, active>>
+  /\ KStep(k) /\ UNCHANGED <<tgen, kgen, topics, active>>
+
+Split == "SubscribeSplit" \in Defects
 
 KSubTopics(k) ==
   /\ pc[k] = "sub.topics" /\ last' = k \o ":KSubTopics"
-  /\ topics' = topics \cup {ks[k]}
+  /\ IF Split
+     THEN /\ kgen' = [kgen EXCEPT ![k] = IF topics = {} THEN 0 ELSE tgen]   \* subs, ok := b.topics[topic] under RLock
+          /\ Goto(k, "sub.insert") /\ KStay /\ UNCHANGED topics
+     ELSE /\ topics' = topics \cup {ks[k]} /\ KRet(k) /\ UNCHANGED kgen
+  /\ KStep(k) /\ UNCHANGED <<tgen, selfT, active>>
+
+\* only with SubscribeSplit: the insert under the write lock (no hook in the real mutant: reachable only by real concurrency)
+KSubInsert(k) ==
+  /\ pc[k] = "sub.insert" /\ last' = k \o ":KSubInsert"
+  /\ topics' = IF kgen[k] = 0 \/ (kgen[k] = tgen /\ topics # {})
+               THEN topics \cup {ks[k]}      \* topic was missing (re-checked, created) or the map is still the live one
+               ELSE topics                     \* the map looked up has been deleted meanwhile: insert into the orphan
+  /\ kgen' = [kgen EXCEPT ![k] = -1]
   /\ KRet(k)
-  /\ KStep(k) /\ UNCHANGED <<selfT, active>>
+  /\ KStep(k) /\ UNCHANGED <<tgen, selfT, active>>
 
 KUnsubSelf(k) ==
   /\ pc[k] = "unsub.self" /\ last' = k \o ":KUnsubSelf"
   /\ selfT' = [selfT EXCEPT ![ks[k]] = FALSE]
   /\ Goto(k, "unsub.topics") /\ KStay
-  /\ KStep(k) /\ UNCHANGED <<topics, active>>
+  /\ KStep(k) /\ UNCHANGED <<tgen, kgen, topics, active>>
 
 KUnsubTopics(k) ==
   /\ pc[k] = "unsub.topics" /\ last' = k \o ":KUnsubTopics"
   /\ topics' = topics \ {ks[k]}
+  \* if len(subs) == 0 { delete(b.topics, topic) }: the next Subscribe creates a new map object
+  /\ tgen' = IF Split /\ topics # {} /\ topics \ {ks[k]} = {} THEN tgen + 1 ELSE tgen
   /\ IF kop[k] = "rm" THEN Goto(k, "rm.delete") /\ KStay ELSE KRet(k)
-  /\ KStep(k) /\ UNCHANGED <<selfT, active>>
+  /\ KStep(k) /\ UNCHANGED <<kgen, selfT, active>>
 
 KRmTopics(k) ==
   /\ pc[k] = "rm.topics" /\ last' = k \o ":KRmTopics"
   /\ Goto(k, IF selfT[ks[k]] THEN "unsub.self" ELSE "rm.delete") /\ KStay
-  /\ KStep(k) /\ UNCHANGED <<topics, selfT, active>>
+  /\ KStep(k) /\ UNCHANGED <<tgen, kgen, topics, selfT, active>>
 
 KRmDelete(k) ==
   /\ pc[k] = "rm.delete" /\ last' = k \o ":KRmDelete"
   /\ Goto(k, "shutdown") /\ KStay
-  /\ KStep(k) /\ UNCHANGED <<topics, selfT, active>>
+  /\ KStep(k) /\ UNCHANGED <<tgen, kgen, topics, selfT, active>>
 
 KShut(k) ==
   /\ pc[k] = "shutdown" /\ last' = k \o ":KShut"
   /\ active' = [active EXCEPT ![ks[k]] = FALSE]
   /\ KRet(k)
-  /\ KStep(k) /\ UNCHANGED <<topics, selfT>>
+  /\ KStep(k) /\ UNCHANGED <<tgen, kgen, topics, selfT>>
 
 Next ==
   \/ \E p \in Pubs : PCall(p) \/ PSnap(p) \/ PActive(p) \/ PSig(p) \/ PLink(p) \/ PCnt(p)
   \/ \E d \in Drainers : ICall(d) \/ ILen(d) \/ IDeq(d) \/ IDec(d)
   \/ \E k \in Ctls : \/ \E s \in Subs : KSubscribe(k, s) \/ KUnsubscribe(k, s) \/ KRemove(k, s) \/ KShutdown(k, s)
-                     \/ KSubActive(k) \/ KSubSelf(k) \/ KSubTopics(k) \/ KUnsubSelf(k) \/ KUnsubTopics(k)
+                     \/ KSubActive(k) \/ KSubSelf(k) \/ KSubTopics(k) \/ KSubInsert(k) \/ KUnsubSelf(k) \/ KUnsubTopics(k)
                      \/ KRmTopics(k) \/ KRmDelete(k) \/ KShut(k)
 
 Spec == Init /\ [][Next]_vars
